@@ -41,7 +41,8 @@ RULE = ("e2e cases: methods (incl. extension methods) x request-targets with per
         "Content-Length / chunked / gzip-labelled x buffered or stream mode in each direction x IP or host-name server x keepHost x compression "
         "minLength {none,0,1,20,100,1000} with bodies at minLength-1/minLength/minLength+1 x Request/ResponseAdaptor body/compress/decompress x backend "
         "status x backend headers x response framing (Content-Length, chunked, close-delimited) x gzip-labelled responses and other Content-Encoding shapes (GZIP, x-gzip, `deflate, gzip` as one value or two lines, `gzip, gzip`, identity, "
-        "deflate, br, `br, gzip`, `gzip, br`) x load-balance policy (none, roundRobin, random, weightedRandom with/without weights, ipHash, headerHash; one or two "
+        "deflate, br, `br, gzip`, `gzip, br`) x response limits at pool / proxy level ((-1,L) (L,-1) (0,L) (L,0) (-1,0) (0,-1) (L,2L) (2L,L) (-1,-1), bodies at L-1/L/L+1/3L) x uploads the client "
+        "cuts off (announced length not reached, chunked without last-chunk; buffered and stream mode) x load-balance policy (none, roundRobin, random, weightedRandom with/without weights, ipHash, headerHash; one or two "
         "identical servers) for the Host rule; one case in 20 follows a label schedule (every Content-Encoding shape x ResponseAdaptor decompress buffered/stream, "
         "proxy compression, ResponseAdaptor compress, untouched); one case in 20 follows a boundary schedule: every body-transforming path (proxy compression, transparent gunzip, "
         "Request/ResponseAdaptor compress and decompress, pass-through; buffered and stream) with a (decoded) body of exactly k x the gzip reader's round "
@@ -197,7 +198,9 @@ def _encode_e2e(c, pool=None):
     S = pool.s
     orc = i["o"]
     server_host = i["srvHost"] + ":PORT"
-    cfg = Rec(p_cstream=B(i["cstream"]), p_sstream=B(i["sstream"]), p_server_host=S(server_host),
+    pool_max = i.get("poolMax") or 0
+    proxy_max = i.get("proxyMax") or (-1 if (i["sstream"] and not pool_max) else 0)
+    cfg = Rec(p_cstream=B(i["cstream"]), p_pool_max=Z(pool_max), p_proxy_max=Z(proxy_max), p_server_host=S(server_host),
               p_host_is_name=B(orc["hostIsName"]), p_keep_host=B(i["keepHost"]),
               p_minlen=Opt(Z(i["minLen"])) if i["minLen"] >= 0 else "None",
               p_ra=_adapt(i["ra"], S), p_rs=_adapt(i["rs"], S))
@@ -219,7 +222,7 @@ def _encode_e2e(c, pool=None):
     wrap = pool.wrap if own else (lambda t: t)
     return wrap(Rec(
         e_cfg=cfg, e_method=S(i["method"]), e_target=S(i["target"]), e_host=S(i["host"]),
-        e_hdrs=_pairs(i["headers"], S), e_body=S(_b(i["reqBody"])),
+        e_hdrs=_pairs(i["headers"], S), e_body=S(_b(i["reqBody"])), e_cut=B(i.get("cut") and i["reqEnc"] != "none"),
         e_resp_status=Z(i["respStatus"]), e_resp_hdrs=_pairs(i["respHeaders"], S),
         e_resp_enc=_enc(i["respEnc"], len(_b(i["respBody"]))), e_resp_body=S(_b(i["respBody"])),
         e_gzip=L([T(S(_b(a)), S(_b(b))) for a, b in (orc["gzip"] or [])]),
